@@ -41,6 +41,8 @@ package c10
 
 import (
 	"fmt"
+	"io"
+	"sync"
 	"strconv"
 	"strings"
 	"testing"
@@ -182,7 +184,100 @@ type world struct {
 	rbuf     []byte // the receiving transport's REUSABLE receive buffer: every frame arrives in it
 	ro       face.NDNLPLinkServiceOptions
 	rscope   defn.Scope
+	sc       *streamConn // `rxs`: the stream connection of this history (created on first use)
 }
+
+// streamConn is the byte stream of a stream face (TCP / Unix): the REAL readTlvStream loop runs on it in a
+// goroutine and hands every block it frames to the receiving link service — out of its own receive buffer,
+// as the stream transports do. feed appends bytes, lets the loop take them in reads of at most `chunk` bytes
+// and returns when the loop is back in Read with nothing left to take.
+type streamConn struct {
+	mu      sync.Mutex
+	cond    *sync.Cond
+	pending []byte
+	chunk   int
+	waiting bool
+	closed  bool
+	tail    []byte // bytes of the separator held back so that no Read ends on a block boundary
+	done    chan error
+}
+
+func (s *streamConn) Read(p []byte) (int, error) {
+	s.mu.Lock()
+	defer s.mu.Unlock()
+	for len(s.pending) == 0 && !s.closed {
+		s.waiting = true
+		s.cond.Broadcast()
+		s.cond.Wait()
+	}
+	if len(s.pending) == 0 {
+		return 0, io.EOF
+	}
+	s.waiting = false
+	n := len(s.pending)
+	if n > s.chunk {
+		n = s.chunk
+	}
+	n = copy(p, s.pending[:n])
+	s.pending = s.pending[n:]
+	return n, nil
+}
+
+func (s *streamConn) feed(b []byte, chunk int) bool {
+	s.mu.Lock()
+	defer s.mu.Unlock()
+	s.pending = append(s.pending, b...)
+	s.chunk = chunk
+	s.cond.Broadcast()
+	deadline := time.Now().Add(20 * time.Second)
+	for !(s.waiting && len(s.pending) == 0) {
+		select {
+		case <-s.done:
+			return false // the loop returned (an error): the stream face is down
+		default:
+		}
+		if time.Now().After(deadline) {
+			return false
+		}
+		s.mu.Unlock()
+		time.Sleep(20 * time.Microsecond)
+		s.mu.Lock()
+	}
+	return true
+}
+
+func (s *streamConn) close() {
+	s.mu.Lock()
+	s.closed = true
+	s.cond.Broadcast()
+	s.mu.Unlock()
+	select {
+	case <-s.done:
+	case <-time.After(5 * time.Second):
+	}
+}
+
+// arriveStream: the frame arrives over the history's stream connection, followed by the first byte of an idle
+// LpPacket (64 00) whose second byte is held back until the next frame: every Read ends INSIDE a block, never
+// on a block boundary, and the buffer of readTlvStream is never completely drained
+func (w *world) arriveStream(frame []byte, chunk int) bool {
+	if w.sc == nil {
+		sc := &streamConn{done: make(chan error, 1)}
+		sc.cond = sync.NewCond(&sc.mu)
+		rcv := w.rcv
+		go func() {
+			sc.done <- face.VerifReadTlvStream(sc, func(b []byte) { face.VerifHandleIncomingFrame(rcv, b) }, nil)
+		}()
+		w.sc = sc
+	}
+	calls = calls[:0]
+	data := append(append(append([]byte{}, w.sc.tail...), frame...), 0x64)
+	w.sc.tail = []byte{0x00}
+	ok := w.sc.feed(data, chunk)
+	collect()
+	return ok
+}
+
 
 // arriveInitial hands a frame to a NEW face as its initial frame, the way the UDP listener does for
 // the first datagram of a new remote endpoint: LinkService.Run(recvBuf[:n]) - and the listener then
@@ -305,6 +400,9 @@ func exec(op string) string {
 	f := common.Fields(op)
 	switch f[0] {
 	case "new":
+		if w != nil && w.sc != nil {
+			w.sc.close()
+		}
 		w = nil
 		held = nil
 		calls = calls[:0]
@@ -425,6 +523,19 @@ func exec(op string) string {
 		}
 		w.arrive(fr[i])
 		return rxOut()
+	case "rxs": // rxs <id> <i> <chunk>: frame <i> of message <id> arrives over the stream connection, in reads of <chunk> bytes
+		if w == nil || len(f) != 4 {
+			return "skip"
+		}
+		fr, ok := w.frames[f[1]]
+		i := common.Atoi(f[2])
+		if !ok || i < 0 || i >= len(fr) {
+			return "skip"
+		}
+		if !w.arriveStream(fr[i], common.Atoi(f[3])) {
+			return "stream-down " + rxOut()
+		}
+		return rxOut()
 	case "rxb": // the packet of message <id> arrives BARE (no LpPacket around it)
 		if w == nil || len(f) != 2 {
 			return "skip"
@@ -458,6 +569,10 @@ func exec(op string) string {
 	case "end":
 		if w == nil {
 			return "skip"
+		}
+		if w.sc != nil {
+			w.sc.close()
+			w.sc = nil
 		}
 		out := "ps=" + strconv.Itoa(face.VerifPartialMessages(w.rcv))
 		for _, p := range held {
@@ -513,11 +628,40 @@ var faceChoices = []uint64{0, 1, 255, 256, 300, 65535, 65536, 0xffffffff, 0x1000
 
 func tlLen(n int) int { return enc.TLNum(n).EncodingLength() }
 
+// genStreamLeg: ONE stream connection carrying several hundred fragmented packets (far more than the 281600-byte
+// receive buffer of readTlvStream), every frame through the real framing loop in reads that never end on a block
+// boundary, into the receiving link service — the long-lived TCP / Unix face of a loaded forwarder
+func genStreamLeg(g *common.Gen, r *common.Rand) {
+	mtu := common.Pick(r, []int{600, 1400, 1500})
+	nth := common.Pick(r, []int{1, 4})
+	g.Op("new %d 1 1 0 0 65536 %d %d n n", mtu, r.Intn(1000), nth)
+	g.Stat("stream-leg")
+	chunk := common.Pick(r, []int{1000, 1460, 4096, 700})
+	total := 0
+	for m := 0; total < 330000; m++ {
+		kind := 5 + r.Intn(2)
+		pkt := sized(kind, r.Range(mtu, 3*mtu), r)
+		id := "s" + strconv.Itoa(m)
+		hn, hp := hashFacts(pkt, nth)
+		g.Op("tx %s %s - 0 - - 0 %d %s", id, common.Hex(pkt), hn, hp)
+		k := len(pkt)/(mtu-60) + 2
+		for i := 0; i < k; i++ {
+			g.Op("rxs %s %d %d", id, i, chunk)
+		}
+		total += len(pkt) + 40*k
+	}
+	g.Op("end")
+}
+
 func gen(g *common.Gen) {
 	// consecutive VERIF_SEEDs give splitmix streams shifted by one draw; spread them out
 	root := common.NewRand((common.Seed() + 1) * 0xD1342543DE82EF95)
 	for h := 0; h < g.N; h++ {
 		r := root.Fork()
+		if h%500 == 7 {
+			genStreamLeg(g, r)
+			continue
+		}
 		mtu := r.Range(128, 400)
 		if r.Chance(1, 4) {
 			mtu = common.Pick(r, mtuBoundary)
